@@ -62,7 +62,7 @@ struct Sim<'a> {
     led: Ledger,
     wire_seen: usize,
     /// ledger valuation after each (tick, fetch) pair seen on the wire
-    valuations: Vec<f64>,
+    valuations: Vec<(f64, f64)>,
     updates: usize,
     hist_seen: usize,
     deposits: f64,
@@ -127,12 +127,14 @@ impl<'a> Sim<'a> {
                         }
                         self.ctx.add("fills_reconciled", ts.len() as u64);
                         let mut v = self.led.cash;
+                        let mut mag = self.led.cash.abs().max(1.0);
                         for (s, q) in &self.led.holdings {
                             if let Some(lq) = self.led.last_quotes.get(s) {
                                 v += q * lq.0;
+                                mag += (q * lq.0).abs();
                             }
                         }
-                        self.valuations.push(v);
+                        self.valuations.push((v, mag));
                     }
                 }
                 _ => {}
@@ -168,9 +170,9 @@ impl<'a> Sim<'a> {
                 self.ctx, "C16", "net-cash-flow", "history", close(snap.net_cash_flow, flows, 1e-9),
                 "snapshot #{j}: net_cash_flow {:?} but deposits {:?} - successful withdrawals {:?} = {:?}", snap.net_cash_flow, self.deposits, self.withdrawn, flows
             );
-            if let Some(v) = self.valuations.get(j) {
+            if let Some((v, mag)) = self.valuations.get(j) {
                 rule!(
-                    self.ctx, "C16", "portfolio-value-vs-wire", "history", close(snap.portfolio_value, *v, 1e-9),
+                    self.ctx, "C16", "portfolio-value-vs-wire", "history", (snap.portfolio_value - *v).abs() <= 1e-9 * mag,
                     "snapshot #{j}: portfolio_value {:?} but cash flows and the exchange's executions valued at the last delivered bids give {:?}", snap.portfolio_value, v
                 );
             }
